@@ -297,6 +297,13 @@ theorem Node.SafeKeys.key {kvs : List (String × Node)} (h : (Node.cont kvs).Saf
 theorem Node.SafeKeys.val {kvs : List (String × Node)} (h : (Node.cont kvs).SafeKeys) {p : String × Node} (hp : p ∈ kvs) :
     p.2.SafeKeys := by cases h with | cont _ h => exact h p hp
 
+/-- every list item anywhere in the tree holds at least one scalar -/
+inductive Node.ItemsHaveScalars : Node → Prop
+  | leaf (v : Scalar) : Node.ItemsHaveScalars (.leaf v)
+  | list {xs : List Node} : (∀ x ∈ xs, 0 < Node.scalarCount x) → (∀ x ∈ xs, Node.ItemsHaveScalars x) →
+      Node.ItemsHaveScalars (.list xs)
+  | cont {kvs : List (String × Node)} : (∀ p ∈ kvs, Node.ItemsHaveScalars p.2) → Node.ItemsHaveScalars (.cont kvs)
+
 mutual
 /-- every structured leaf path below `n` has safe keys and walks to its leaf, given that the
     pending component `cur` walks to `n` in `root` -/
